@@ -5,6 +5,7 @@ CONSTANTS
   MaxFaults = 1
   Pools = {2}
   Pars = {FALSE}
+  PreKinds = {"none"}
   CrashKinds = {"sweep"}
   BurstSizes = {}
   BurstHolds = {}
